@@ -76,7 +76,7 @@ def build_cases(tier, seed):
     return A, B
 
 
-def draw_cover(rng, keys, vals, mbn, embs=C.API_EMBS):
+def draw_cover(rng, keys, vals, mbn, embs=C.API_EMBS, strategy=True):
     n = len(keys)
     for _ in range(50):
         op = rng.pick(C.OPS8)
@@ -104,8 +104,11 @@ def draw_cover(rng, keys, vals, mbn, embs=C.API_EMBS):
     c["kcont"] = rng.pick(["np", "np", "series"])
     c["mcont"] = rng.pick(["np", "series"])
     # the property holds under every execution strategy: some draws run threaded / on chunk-wise factorized keys
+    # (callers that replace the mask / keys afterwards draw the strategy themselves: strategy=False)
     if rng.random() < 0.25:
         c["R"] = rng.pick([1, 2])
+    if not strategy:
+        return c
     if (not two and n >= 2 and rng.random() < 0.25 and mask["k"] != "pos" and not (mask["k"] == "slice" and mask["s"][2] not in (-997, 1))
             and not (kenc == "str" and k1[0] == NULL) and kenc not in ("cat", "catperm")):
         c["T"] = 2 if n < 6 else rng.pick([2, 4])
